@@ -789,7 +789,8 @@ func ruleOwners() *Rule {
 		{"call StateMachine.Snapshot", []string{"(*Raft).snapshotLoop"}},
 		{"call Log.Truncate", []string{"(*Raft).AppendEntries"}},
 		{"call Log.Compact", []string{"(*Raft).snapshotLoop", "(*Raft).InstallSnapshot"}},
-		{"call Log.DiscardEntries", []string{"(*Raft).InstallSnapshot"}},
+		// (restore completes an installation that a crash interrupted between publishing the snapshot and discarding the log)
+		{"call Log.DiscardEntries", []string{"(*Raft).InstallSnapshot", "NewRaft", "(*Raft).Restart", "(*Raft).Start"}},
 		{"store follower.matchIndex", []string{"(*Raft).sendAppendEntries", "(*Raft).sendRequestVote", "(*Raft).electionLoop"}},
 		{"store Operation.quorumVerified", []string{"(*Raft).sendAppendEntries", "(*Raft).AddServer", "(*Raft).RemoveServer", "(*Raft).SubmitOperation", "(*Raft).commitLoop", "(*Raft).heartbeatLoop", "(*Raft).sendRequestVote", "(*Raft).electionLoop"}},
 	}
